@@ -82,7 +82,9 @@ def worker(args, scratch):
     res = {"evaluations": 0, "nontrivial": [], "samples": [], "counts": {}, "violations": []}
     cnt = res["counts"]
     try:
-        callers = [w.identity("alice", "tool", ["x"]), w.identity("bob", "helper", []), w.identity("gidzero", "python3", ["-c", "1"])]
+        callers = [w.identity("alice", "tool", ["x"]), w.identity("bob", "helper", []), w.identity("gidzero", "python3", ["-c", "1"]),
+                   # a process whose EFFECTIVE uid is 0 while its real uid (the one in the kernel record) is not: a set-uid-root program run by bob
+                   w.identity("bob", "setuidtool", ["--euid0"], euid0=True)]
         root = w.identity("root", "helper", [])
         for pol in range(args["policies"]):
             for ep in ("wireserver", "hostga", "imds"):
